@@ -335,3 +335,183 @@ Proof.
   rewrite (rename_if_present_absent w1 (d ++ [info_name n])) by (apply S1; [congruence | assumption | intros E; apply Hng; auto 6]).
   reflexivity.
 Qed.
+
+(* ---- MOVE / RENAME of a file WITH its side files: the whole group travels ---- *)
+(* one rename of something that may be absent *)
+Definition mv (w : world) (p q : list name) : world :=
+  match w !! p with Some x => <[q := x]> (delete p w) | None => w end.
+Lemma mv_lookup (w : world) p q k : p <> q ->
+  mv w p q !! k = match w !! p with
+                  | Some x => if decide (k = q) then Some x else if decide (k = p) then None else w !! k
+                  | None => w !! k
+                  end.
+Proof.
+  intros Hne. unfold mv. destruct (w !! p) as [x|] eqn:E; [|reflexivity].
+  destruct (decide (k = q)) as [->|Hq]; [now rewrite lookup_insert|]. rewrite lookup_insert_ne by congruence.
+  destruct (decide (k = p)) as [->|Hp]; [now rewrite lookup_delete|]. now rewrite lookup_delete_ne by congruence.
+Qed.
+Lemma rename_if_present_mv (w : world) p q :
+  (forall x, w !! p = Some x -> x <> NDir) -> p <> q -> is_prefix p q = false ->
+  w !! q <> Some NDir -> (parent q = [] \/ w !! (parent q) = Some NDir) ->
+  rename_if_present w p q = mv w p q.
+Proof.
+  intros Hx Hne Hpre Hq Hpar. unfold rename_if_present, mv. destruct (w !! p) as [x|] eqn:E; [|reflexivity].
+  rewrite (os_rename_file w p q x); auto.
+Qed.
+Lemma mv_other (w : world) p q k : k <> p -> k <> q -> mv w p q !! k = w !! k.
+Proof.
+  intros Hp Hq. unfold mv. destruct (w !! p); [|reflexivity].
+  rewrite lookup_insert_ne by congruence. now rewrite lookup_delete_ne by congruence.
+Qed.
+Lemma mv_dst (w : world) p q : p <> q -> w !! q = None -> mv w p q !! q = w !! p.
+Proof. intros Hne Hq. unfold mv. destruct (w !! p) eqn:E; [now rewrite lookup_insert|exact Hq]. Qed.
+Lemma mv_src (w : world) p q : p <> q -> mv w p q !! p = None.
+Proof.
+  intros Hne. unfold mv. destruct (w !! p) eqn:E; [|exact E]. rewrite lookup_insert_ne by congruence. apply lookup_delete.
+Qed.
+
+Section Group.
+  Variables (w : world) (d d' : list name) (n n' : name) (b : bytes).
+  Let s0 := d ++ [n]. Let s1 := d ++ [incomplete_name n]. Let s2 := d ++ [rsrc_name n]. Let s3 := d ++ [info_name n].
+  Let t0 := d' ++ [n']. Let t1 := d' ++ [incomplete_name n']. Let t2 := d' ++ [rsrc_name n']. Let t3 := d' ++ [info_name n'].
+  Hypothesis Hfile : w !! s0 = Some (NFile b).
+  Hypothesis Hside : forall k x, In k [s1; s2; s3] -> w !! k = Some x -> x <> NDir.
+  Hypothesis Hdisj : forall a, In a (group d n) -> In a (group d' n') -> False.
+  Hypothesis Hfree : forall k, In k (group d' n') -> w !! k = None.
+  Hypothesis Hpre : is_prefix s0 t0 = false /\ is_prefix s1 t1 = false /\ is_prefix s2 t2 = false /\ is_prefix s3 t3 = false.
+  Hypothesis Hpar : d' = [] \/ w !! d' = Some NDir.
+  Hypothesis Hd' : ~ In d' (group d n).
+
+  Lemma names_distinct :
+    NoDup [s0; s1; s2; s3; t0; t1; t2; t3].
+  Proof.
+    (* the sixteen + twelve inequalities between the eight names *)
+    assert (G : group d n = [s0; s1; s2; s3]) by reflexivity.
+    assert (G' : group d' n' = [t0; t1; t2; t3]) by reflexivity.
+    assert (X : forall a c, In a [s0; s1; s2; s3] -> In c [t0; t1; t2; t3] -> a <> c).
+    { intros a c Ha Hc E. subst c. eapply Hdisj; [rewrite G; exact Ha | rewrite G'; exact Hc]. }
+    assert (S01 : s0 <> s1) by apply sibling_ne, name_ne_incomplete.
+    assert (S02 : s0 <> s2) by apply sibling_ne, name_ne_rsrc.
+    assert (S03 : s0 <> s3) by apply sibling_ne, name_ne_info.
+    assert (S12 : s1 <> s2) by apply sibling_ne, incomplete_ne_rsrc.
+    assert (S13 : s1 <> s3) by apply sibling_ne, incomplete_ne_info.
+    assert (S23 : s2 <> s3) by apply sibling_ne, rsrc_ne_info.
+    assert (T01 : t0 <> t1) by apply sibling_ne, name_ne_incomplete.
+    assert (T02 : t0 <> t2) by apply sibling_ne, name_ne_rsrc.
+    assert (T03 : t0 <> t3) by apply sibling_ne, name_ne_info.
+    assert (T12 : t1 <> t2) by apply sibling_ne, incomplete_ne_rsrc.
+    assert (T13 : t1 <> t3) by apply sibling_ne, incomplete_ne_info.
+    assert (T23 : t2 <> t3) by apply sibling_ne, rsrc_ne_info.
+    assert (X00 := X s0 t0 ltac:(cbn; auto) ltac:(cbn; auto)). assert (X01 := X s0 t1 ltac:(cbn; auto) ltac:(cbn; auto)).
+    assert (X02 := X s0 t2 ltac:(cbn; auto) ltac:(cbn; auto)). assert (X03 := X s0 t3 ltac:(cbn; auto) ltac:(cbn; auto)).
+    assert (X10 := X s1 t0 ltac:(cbn; auto) ltac:(cbn; auto)). assert (X11 := X s1 t1 ltac:(cbn; auto) ltac:(cbn; auto)).
+    assert (X12 := X s1 t2 ltac:(cbn; auto) ltac:(cbn; auto)). assert (X13 := X s1 t3 ltac:(cbn; auto) ltac:(cbn; auto)).
+    assert (X20 := X s2 t0 ltac:(cbn; auto) ltac:(cbn; auto)). assert (X21 := X s2 t1 ltac:(cbn; auto) ltac:(cbn; auto)).
+    assert (X22 := X s2 t2 ltac:(cbn; auto) ltac:(cbn; auto)). assert (X23 := X s2 t3 ltac:(cbn; auto) ltac:(cbn; auto)).
+    assert (X30 := X s3 t0 ltac:(cbn; auto) ltac:(cbn; auto)). assert (X31 := X s3 t1 ltac:(cbn; auto) ltac:(cbn; auto)).
+    assert (X32 := X s3 t2 ltac:(cbn; auto) ltac:(cbn; auto)). assert (X33 := X s3 t3 ltac:(cbn; auto) ltac:(cbn; auto)).
+    repeat constructor; cbn; intuition congruence.
+  Qed.
+
+  Definition moved : world := mv (mv (mv (mv w s0 t0) s1 t1) s2 t2) s3 t3.
+
+  Theorem wrapper_move_group : wrapper_move w d n d' n' = Some moved.
+  Proof.
+    (* the sixteen + twelve inequalities between the eight names *)
+    assert (G : group d n = [s0; s1; s2; s3]) by reflexivity.
+    assert (G' : group d' n' = [t0; t1; t2; t3]) by reflexivity.
+    assert (X : forall a c, In a [s0; s1; s2; s3] -> In c [t0; t1; t2; t3] -> a <> c).
+    { intros a c Ha Hc E. subst c. eapply Hdisj; [rewrite G; exact Ha | rewrite G'; exact Hc]. }
+    assert (S01 : s0 <> s1) by apply sibling_ne, name_ne_incomplete.
+    assert (S02 : s0 <> s2) by apply sibling_ne, name_ne_rsrc.
+    assert (S03 : s0 <> s3) by apply sibling_ne, name_ne_info.
+    assert (S12 : s1 <> s2) by apply sibling_ne, incomplete_ne_rsrc.
+    assert (S13 : s1 <> s3) by apply sibling_ne, incomplete_ne_info.
+    assert (S23 : s2 <> s3) by apply sibling_ne, rsrc_ne_info.
+    assert (T01 : t0 <> t1) by apply sibling_ne, name_ne_incomplete.
+    assert (T02 : t0 <> t2) by apply sibling_ne, name_ne_rsrc.
+    assert (T03 : t0 <> t3) by apply sibling_ne, name_ne_info.
+    assert (T12 : t1 <> t2) by apply sibling_ne, incomplete_ne_rsrc.
+    assert (T13 : t1 <> t3) by apply sibling_ne, incomplete_ne_info.
+    assert (T23 : t2 <> t3) by apply sibling_ne, rsrc_ne_info.
+    assert (X00 := X s0 t0 ltac:(cbn; auto) ltac:(cbn; auto)). assert (X01 := X s0 t1 ltac:(cbn; auto) ltac:(cbn; auto)).
+    assert (X02 := X s0 t2 ltac:(cbn; auto) ltac:(cbn; auto)). assert (X03 := X s0 t3 ltac:(cbn; auto) ltac:(cbn; auto)).
+    assert (X10 := X s1 t0 ltac:(cbn; auto) ltac:(cbn; auto)). assert (X11 := X s1 t1 ltac:(cbn; auto) ltac:(cbn; auto)).
+    assert (X12 := X s1 t2 ltac:(cbn; auto) ltac:(cbn; auto)). assert (X13 := X s1 t3 ltac:(cbn; auto) ltac:(cbn; auto)).
+    assert (X20 := X s2 t0 ltac:(cbn; auto) ltac:(cbn; auto)). assert (X21 := X s2 t1 ltac:(cbn; auto) ltac:(cbn; auto)).
+    assert (X22 := X s2 t2 ltac:(cbn; auto) ltac:(cbn; auto)). assert (X23 := X s2 t3 ltac:(cbn; auto) ltac:(cbn; auto)).
+    assert (X30 := X s3 t0 ltac:(cbn; auto) ltac:(cbn; auto)). assert (X31 := X s3 t1 ltac:(cbn; auto) ltac:(cbn; auto)).
+    assert (X32 := X s3 t2 ltac:(cbn; auto) ltac:(cbn; auto)). assert (X33 := X s3 t3 ltac:(cbn; auto) ltac:(cbn; auto)).
+    (* the destination folder is none of the eight names *)
+    assert (D : forall k, In k [s0; s1; s2; s3; t0; t1; t2; t3] -> d' <> k).
+    { intros k Hk E. cbn in Hk. destruct Hk as [<-|[<-|[<-|[<-|Hk]]]]; try (apply Hd'; rewrite G; cbn; auto; fail).
+      destruct Hk as [<-|[<-|[<-|[<-|[]]]]]; unfold t0, t1, t2, t3 in E;
+        apply (f_equal (@List.length name)) in E; rewrite app_length in E; cbn in E; lia. }
+    assert (F0 := Hfree t0 ltac:(rewrite G'; cbn; auto)). assert (F1 := Hfree t1 ltac:(rewrite G'; cbn; auto)).
+    assert (F2 := Hfree t2 ltac:(rewrite G'; cbn; auto)). assert (F3 := Hfree t3 ltac:(rewrite G'; cbn; auto)).
+    destruct Hpre as (P0 & P1 & P2 & P3).
+    assert (PAR : forall (w' : world) t, In t [t0; t1; t2; t3] -> w' !! d' = w !! d' -> parent t = [] \/ w' !! parent t = Some NDir).
+    { intros w' t Ht Hw. assert (parent t = d') as ->.
+      { cbn in Ht. destruct Ht as [<-|[<-|[<-|[<-|[]]]]]; apply parent_app_single. }
+      destruct Hpar as [->|Hp]; [now left|right; now rewrite Hw]. }
+    unfold wrapper_move. fold s0 s1 s2 s3 t0 t1 t2 t3.
+    rewrite (os_rename_file w s0 t0 (NFile b)); auto; try discriminate; try (rewrite F0; discriminate).
+    2:{ apply (PAR w t0); [cbn; auto|reflexivity]. }
+    change (<[t0:=NFile b]> (delete s0 w)) with (match Some (NFile b) with Some x => <[t0:=x]> (delete s0 w) | None => w end).
+    rewrite <- Hfile. fold (mv w s0 t0).
+    set (w1 := mv w s0 t0).
+    assert (A1 : forall x, w1 !! s1 = Some x -> x <> NDir).
+    { intros x Hx. unfold w1 in Hx. rewrite mv_other in Hx by congruence. eapply Hside; eauto. cbn; auto. }
+    assert (B1 : w1 !! t1 <> Some NDir).
+    { unfold w1. rewrite mv_other by congruence. rewrite F1. discriminate. }
+    assert (C1 : parent t1 = [] \/ w1 !! parent t1 = Some NDir).
+    { apply PAR; [cbn; auto|]. unfold w1. apply mv_other; apply D; cbn; auto 10. }
+    rewrite (rename_if_present_mv w1 s1 t1 A1 X11 P1 B1 C1).
+    set (w2 := mv w1 s1 t1).
+    assert (A2 : forall x, w2 !! s2 = Some x -> x <> NDir).
+    { intros x Hx. unfold w2, w1 in Hx. rewrite !mv_other in Hx by congruence. eapply Hside; eauto. cbn; auto. }
+    assert (B2 : w2 !! t2 <> Some NDir).
+    { unfold w2, w1. rewrite !mv_other by congruence. rewrite F2. discriminate. }
+    assert (C2 : parent t2 = [] \/ w2 !! parent t2 = Some NDir).
+    { apply PAR; [cbn; auto|]. unfold w2, w1. rewrite !mv_other; auto; apply D; cbn; auto 10. }
+    rewrite (rename_if_present_mv w2 s2 t2 A2 X22 P2 B2 C2).
+    set (w3 := mv w2 s2 t2).
+    assert (A3 : forall x, w3 !! s3 = Some x -> x <> NDir).
+    { intros x Hx. unfold w3, w2, w1 in Hx. rewrite !mv_other in Hx by congruence. eapply Hside; eauto. cbn; auto. }
+    assert (B3 : w3 !! t3 <> Some NDir).
+    { unfold w3, w2, w1. rewrite !mv_other by congruence. rewrite F3. discriminate. }
+    assert (C3 : parent t3 = [] \/ w3 !! parent t3 = Some NDir).
+    { apply PAR; [cbn; auto|]. unfold w3, w2, w1. rewrite !mv_other; auto; apply D; cbn; auto 10. }
+    rewrite (rename_if_present_mv w3 s3 t3 A3 X33 P3 B3 C3).
+    reflexivity.
+  Qed.
+
+  (* what the group move did: every member that existed is under the new name, the old names are free, nothing else
+     changed *)
+  Ltac nd := pose proof names_distinct as ND; repeat (apply NoDup_cons_iff in ND as [? ND]); cbn in *.
+  Theorem moved_frame q : ~ In q (group d n) -> ~ In q (group d' n') -> moved !! q = w !! q.
+  Proof.
+    intros H1 H2. unfold moved. unfold group in H1, H2. cbn in H1, H2. fold s0 s1 s2 s3 in H1. fold t0 t1 t2 t3 in H2.
+    rewrite !mv_other; auto; intros E; subst; intuition congruence.
+  Qed.
+  Theorem moved_members :
+    moved !! t0 = Some (NFile b) /\ moved !! t1 = w !! s1 /\ moved !! t2 = w !! s2 /\ moved !! t3 = w !! s3 /\
+    moved !! s0 = None /\ moved !! s1 = None /\ moved !! s2 = None /\ moved !! s3 = None.
+  Proof.
+    nd.
+    assert (F0 := Hfree t0 ltac:(cbn; auto)). assert (F1 := Hfree t1 ltac:(cbn; auto)).
+    assert (F2 := Hfree t2 ltac:(cbn; auto)). assert (F3 := Hfree t3 ltac:(cbn; auto 6)).
+    assert (N : forall a c : list name, (a = c -> False) -> a <> c) by auto.
+    unfold moved. repeat split.
+    - rewrite !mv_other by intuition congruence. rewrite mv_dst by (assumption || intuition congruence). exact Hfile.
+    - rewrite !mv_other by intuition congruence.
+      rewrite mv_dst; [now rewrite mv_other by intuition congruence|intuition congruence|]. now rewrite mv_other by intuition congruence.
+    - rewrite !mv_other by intuition congruence.
+      rewrite mv_dst; [now rewrite !mv_other by intuition congruence|intuition congruence|]. now rewrite !mv_other by intuition congruence.
+    - rewrite mv_dst; [now rewrite !mv_other by intuition congruence|intuition congruence|]. now rewrite !mv_other by intuition congruence.
+    - rewrite !mv_other by intuition congruence. apply mv_src. intuition congruence.
+    - rewrite !mv_other by intuition congruence. apply mv_src. intuition congruence.
+    - rewrite !mv_other by intuition congruence. apply mv_src. intuition congruence.
+    - apply mv_src. intuition congruence.
+  Qed.
+End Group.
